@@ -12,9 +12,11 @@
 (*        i.e. the natural scale of the rounding error of ANY floating-point           *)
 (*        evaluation of the same expression (used only for tolerances, section 7):     *)
 (*           leaf x            mag = |x|                                               *)
-(*           a + b, a - b      mag = mag(a) + mag(b)                                   *)
-(*           a * b             mag = mag(a) * mag(b)                                   *)
-(*           a / b             mag = mag(a) * (1/|b| + mag(b)/b^2)                     *)
+(*           a + b, a - b      mag = mag(a) + mag(b); |a +- b| when both are exact     *)
+(*                             inputs (one correctly rounded operation)                *)
+(*           a * b             mag = |a| mag(b) + |b| mag(a) - |a b|   (first order:   *)
+(*           a / b             mag = mag(a)/|b| + |a| mag(b)/b^2 - |a/b|   relative     *)
+(*                                   inflations r = mag/|val| ADD: r_a + r_b - 1)      *)
 (*           f(a)              mag = |f(a)| + |f'(a)| * mag(a)      (NFun)             *)
 (* Numbers are opaque to the specification: only the operators below inspect them.     *)
 (***************************************************************************************)
